@@ -282,6 +282,13 @@ func (n *Net) StartAll() error {
 			return err
 		}
 	}
+	// before genesis two goroutines per node wait on the clock (the ticker and the sync manager): wait until they do, so that
+	// the first advance does not race with their start-up (a tick that fires before the handler registered its tick channel is lost)
+	for _, nd := range n.Nodes {
+		ctx, cancel := context.WithTimeout(context.Background(), 2*time.Second)
+		_ = nd.Clock.BlockUntilContext(ctx, 2)
+		cancel()
+	}
 	n.pause()
 	return nil
 }
